@@ -84,8 +84,8 @@ var vbClauses = []vrClause{
 		Rule:  "no panic, terminates, only records/errors; accepted records (text free of TAB/CR/LF, chrom not starting with '#') are fixed points of Write->Reader",
 		Gen:   vbGenTotal, Run: vbRunTotal},
 	{Prop: "C18", Name: "stop",
-		Bound: "random inputs (valid, with bad lines) x {Reader, File} x every stop position 1..N+1",
-		Rule:  "no callback after the consumer stops, no panic, items == prefix of the uninterrupted run; an error item is the last item of an uninterrupted run",
+		Bound: "4 fixed inputs and random inputs (valid, with bad lines) x {Reader, File} x every stop position 1..N+1; failing underlying reader (Reader only): 5 small fixed files (4 well-formed, 1 with a malformed last line) x every fault offset 0..len x {fails once then EOF, fails forever} x every stop position 1..N+1 (N = items of the uninterrupted run with that fault), cut short if the time budget ends first",
+		Rule:  "no callback after the consumer stops, no panic, items == prefix of the uninterrupted run; an error item is the last item of an uninterrupted run; with \"fault\" >= 0 both runs use a fresh reader that delivers data[:fault] and then fails with a non-EOF error (\"forever\": every time, else once and then io.EOF)",
 		Gen:   vbGenStop, Run: vbRunStop},
 }
 
@@ -1643,6 +1643,23 @@ func vbGenStop(g *vrGen) {
 	emit([]byte("a\t1\t2\nb\t3\t4\nc\t5\t6\n"))
 	emit([]byte("a\t1\n"))
 	emit(nil)
+	// failing underlying reader (Reader only; not counted in n): every fault
+	// offset x {once, forever} x every stop position
+	emitFault := func(data []byte) {
+		for off := 0; off <= len(data) && !g.Expired(); off++ {
+			for _, forever := range []bool{false, true} {
+				items, _, _, _ := vbCollect("Reader", &vbFaultReader{data: data[:off], forever: forever}, "", 0, len(data)+20)
+				for stop := 1; stop <= len(items)+1; stop++ {
+					g.Case(map[string]any{"data": vrB(data), "stop": stop, "api": "Reader", "fault": off, "forever": forever})
+				}
+			}
+		}
+	}
+	emitFault([]byte("a\t1\t2\n"))
+	emitFault([]byte("a\t1\t2\nb\t3\t4\nc\t5\t6\n"))
+	emitFault([]byte("chr1\t100\t200\tfeat\t500\t+\nchr2\t5\t6\tg\t0\t-"))
+	emitFault([]byte("a\t1\t2\r\nb\t3\t4\r\n"))
+	emitFault([]byte("a\t1\t2\nb\t3\t4\nbad line\n"))
 	for n < max && !g.Expired() {
 		var data []byte
 		switch g.Rand.Intn(3) {
@@ -1674,7 +1691,23 @@ func vbRunStop(in map[string]any) vrResult {
 		stop = 1
 	}
 	api := vbAnyStr(in["api"])
+	what := api
 	var r1, r2 io.Reader = bytes.NewReader(data), bytes.NewReader(data)
+	if v, ok := in["fault"]; ok && v != nil && vrInt(v) >= 0 {
+		// failing underlying reader: delivers data[:fault], then a non-EOF error
+		// (once and then io.EOF, or forever); a fresh one for each of the two runs.
+		if api != "Reader" {
+			panic("harness: fault needs api Reader")
+		}
+		off := vrInt(v)
+		if off > len(data) {
+			off = len(data)
+		}
+		forever := vrBool(in["forever"])
+		r1 = &vbFaultReader{data: data[:off], forever: forever}
+		r2 = &vbFaultReader{data: data[:off], forever: forever}
+		what = fmt.Sprintf("Reader(reader failing after %d of %d bytes, forever=%v)", off, len(data), forever)
+	}
 	path := ""
 	if api == "File" {
 		var dir string
@@ -1684,11 +1717,11 @@ func vbRunStop(in map[string]any) vrResult {
 	limit := len(data) + 20
 	full, _, capped, p := vbCollect(api, r1, path, 0, limit)
 	if p != nil || capped {
-		return vrResult{Observed: fmt.Sprintf("uninterrupted %s: panic %v, capped %v", api, p, capped), Expected: "terminates without panic"}
+		return vrResult{Observed: fmt.Sprintf("uninterrupted %s: panic %v, capped %v", what, p, capped), Expected: "terminates without panic"}
 	}
 	for i, it := range full {
 		if it.Err != nil && i != len(full)-1 {
-			return vrResult{Observed: fmt.Sprintf("uninterrupted %s: error item %d is followed by more items: %s", api, i, vbItemsDesc(full)),
+			return vrResult{Observed: fmt.Sprintf("uninterrupted %s: error item %d is followed by more items: %s", what, i, vbItemsDesc(full)),
 				Expected: "an error item is the last item of the iteration"}
 		}
 	}
@@ -1697,7 +1730,7 @@ func vbRunStop(in map[string]any) vrResult {
 	if n > len(full) {
 		n = len(full)
 	}
-	exp := fmt.Sprintf("%s stopped at item %d: no further callback, no panic, items == first %d of %s", api, stop, n, vbItemsDesc(full))
+	exp := fmt.Sprintf("%s stopped at item %d: no further callback, no panic, items == first %d of %s", what, stop, n, vbItemsDesc(full))
 	if p != nil {
 		return vrResult{Observed: fmt.Sprintf("panic after %d items (+%d callbacks after the stop): %v", len(got), extra, p), Expected: exp}
 	}
